@@ -88,3 +88,19 @@ def witness_token_unit(r):
     M, ref, bad = _run(r)
     exp = np.array(r["expected"]["cells"], dtype=float).reshape(M.shape)
     return {"match": bool(np.allclose(M, exp, rtol=1e-4, atol=1e-6)), "got": M.tolist()}
+
+
+def replay_window_lemma(r):
+    import numpy as np
+    from vectorizers._window_kernels import window_at_index
+    inp, p = r["inputs"], r["params"]
+    n, rad, ind = min(int(inp["len"]), 5000), min(int(inp["radius"]), 6000), int(inp["ind"])
+    ind = min(ind, n - 1)
+    seq = np.arange(n, dtype=np.int64)
+    try:
+        w = window_at_index(seq, rad, ind, reverse=bool(p["reverse"]))
+    except Exception as e:
+        return {"violation": True, "detail": "%s: %s" % (type(e).__name__, e)}
+    exp = [ind - k for k in range(1, rad + 1) if ind - k >= 0] if p["reverse"] else [ind + k for k in range(1, rad + 1) if ind + k < n]
+    bad = list(w) != exp
+    return {"violation": bool(bad), "detail": "len=%d radius=%d ind=%d: %s expected %s" % (n, rad, ind, list(w)[:8], exp[:8])}
